@@ -143,6 +143,42 @@ def step (t : Tbl) (j : Json) : Tbl × Json :=
                                ("n", .num (JsonNumber.fromNat r.nrows))]
         | .error _ => .null)
     | none => bad t "rows sel"
+  | some "derive" =>
+    -- a chain of derivations starting from the current table; the source must come out unchanged
+    match field j "steps" with
+    | some (.arr steps) =>
+      let rec go (cur : Tbl) : List Json → Except String (Except TErr Tbl)
+        | [] => .ok (.ok cur)
+        | st :: rest =>
+          match st with
+          | .arr a =>
+            (match a.toList with
+             | [.str "rows", sj] =>
+               (match selOfJson sj with
+                | some sel => (match (rowsOf cur (matchOf j) sel).2 with
+                  | .ok r => go r rest
+                  | .error e => .ok (.error e))
+                | none => .error "sel")
+             | [.str "cols", .arr ns] =>
+               (match ns.toList.mapM (fun (x : Json) => x.getStr?.toOption) with
+                | some names => (match selectCols cur names with | .ok r => go r rest | .error e => .ok (.error e))
+                | none => .error "cols")
+             | [.str "copy"] => go (copyT cur) rest
+             | [.str "mul", k] => (match k.getNat?.toOption with
+                | some k => (match mulT cur k with | .ok r => go r rest | .error e => .ok (.error e))
+                | none => .error "mul")
+             | [.str "add_source"] => (match addT cur t with | .ok r => go r rest | .error e => .ok (.error e))
+             | [.str "add_self"] => (match addT cur cur with | .ok r => go r rest | .error e => .ok (.error e))
+             | _ => .error "step")
+          | _ => .error "step"
+      match go t steps.toList with
+      | .error why => bad t why
+      | .ok (.error e) => out t (.str e.name) .null
+      | .ok (.ok r) =>
+        out t (.str "ok") (Json.mkObj [("cols", .arr (r.colNames.map Json.str).toArray), ("nrows", .num (JsonNumber.fromNat r.nrows)),
+          ("index", .arr (r.indexCol.map Json.str).toArray), ("rect", .bool (rectB r)),
+          ("cells", .arr (r.colNames.map (fun c => Json.arr (((r.col c).getD []).map cellToJson).toArray)).toArray)])
+    | _ => bad t "derive"
   | _ => bad t "unknown op"
 
 end DTable
